@@ -25,3 +25,9 @@ var _ json.Marshaler = IntrospectAccessToken200JSONResponse{}
 func (r IntrospectAccessToken200JSONResponse) MarshalJSON() ([]byte, error) {
 	return json.Marshal(TokenIntrospectionResponse(r))
 }
+
+var _ json.Marshaler = IntrospectAccessTokenExtended200JSONResponse{}
+
+func (r IntrospectAccessTokenExtended200JSONResponse) MarshalJSON() ([]byte, error) {
+	return json.Marshal(ExtendedTokenIntrospectionResponse(r))
+}
